@@ -393,6 +393,22 @@ def o3(ctx):
                 ok = len(calls) == 1 and calls[0].d['name'] == callee and calls[0].d['recv'].k == 'self'
             obs.append(Ob('O3', '%s.%s' % (cls, m), ok, '%s.%s does not call self.%s() exactly once' % (cls, m, callee),
                           f.loc()))
+    # no __exit__ of the package returns a value that can be true: a truthy __exit__ swallows the exception that
+    # left the with-block
+    for g in ctx.prog.all_funcs():
+        if g.name != '__exit__' or g.cls is None:
+            continue
+        bad = None
+        for p in ctx.paths(g, 'plain'):
+            if p.kind == 'return':
+                rv = p.outcome[1]
+                if not (rv.is_const and not rv.val):
+                    bad = p
+        obs.append(Ob('O3', '%s.__exit__/returns-falsy' % g.cls, bad is None,
+                      '%s.__exit__ can return a true value (%r): an exception raised inside the with-block (or inside a '
+                      'function decorated with barrier) is silently swallowed' %
+                      (g.cls, bad.outcome[1] if bad is not None else None), g.loc(),
+                      fmt_trace(bad.trace) if bad is not None else None))
     f = ctx.func('recipes.barrier.<locals>.decorator.<locals>.wrapper')
     # the variable of the decorator that holds the lock object made by lock_factory(...)
     lock_names = set()
